@@ -189,6 +189,14 @@ func (e *expectation) appendTracer(ev Event, w *window, phase int) {
 	n := len(ev.Trace)
 	main := ev.Trace[n-1]
 	sub := Tuple{Text: main.Text, Sev: main.Sev, Pkg: ev.Pkg, Sub: subOf(ev.Trace[:n-1])}
+	// the plain echo of the main line (same handler, context without tracer) is an
+	// ordinary line of its own, before or after whatever the traced run produces
+	if ev.EchoBefore > 0 {
+		e.appendLine(main, ev.EchoBefore, w, phase)
+	}
+	if ev.EchoAfter > 0 {
+		defer e.appendLine(main, ev.EchoAfter, w, phase)
+	}
 	switch {
 	case on && !off:
 		e.tracerReal++
@@ -309,6 +317,7 @@ type Report struct {
 	TracerNil     int
 	TracerEither  int
 	TracerWrites  int // adapter calls carrying collected lines
+	EchoAdjacent  int // adjacent adapter calls (plain, trace) or (trace, plain) with the same text, severity, file and line
 	BeforeShutdwn int // adapter calls before Shutdown was called
 }
 
@@ -403,6 +412,13 @@ func Check(s *Scenario, res *Result) *Report {
 		// (message, duplicates) stands for duplicates+1 identical consecutive lines
 		for k := uint64(0); k <= w.Dups; k++ {
 			recv[g] = append(recv[g], recvLine{tup: tup, write: wi})
+		}
+	}
+	ws := res.Writes[:res.AtShutdownReturn]
+	for i := 0; i+1 < len(ws); i++ {
+		a, b := ws[i], ws[i+1]
+		if a.Text == b.Text && a.Sev == b.Sev && a.File == b.File && a.Line == b.Line && (len(a.Trace) > 0) != (len(b.Trace) > 0) {
+			rep.EchoAdjacent++
 		}
 	}
 	for g := range recv {
